@@ -112,6 +112,12 @@ class Interface(ModelElement):
         assert name is not None
         assert self.type is InterfaceType.DedicatedPort
 
+        # this handle's list may predate sub-interfaces added through another handle: bring it up to date first
+        known = {i.node_id for i in self._interfaces}
+        for cid in self.topo.graph_model.get_all_child_connection_points(interface_id=self.node_id):
+            if cid not in known:
+                _, cprops = self.topo.graph_model.get_node_properties(node_id=cid)
+                self._interfaces.append(Interface(node_id=cid, topo=self.topo, name=cprops[ABCPropertyGraph.PROP_NAME]))
         # check uniqueness
         all_names = [n.name for n in self._interfaces]
         if name in all_names:
